@@ -9,7 +9,8 @@ reg(Prop(
          'for ceil_div/ceil_div_signed<32 bit>, the boundary lattice (0,+-1,2^k+-2,min,max) and seeded random values for '
          '32/64-bit types. The result is compared with __int128 arithmetic. evaluations counts single library calls judged; '
          'a case for the distinct count is one row (function, instantiation, first operand, set of second operands) or one '
-         'chunk of unary inputs, hashed canonically; inputs whose exact result is not representable are skipped and counted.',
+         'chunk of unary inputs, hashed canonically; inputs whose exact result is not representable are skipped and counted.'
+         ' mod<float> and mod<long double> (operands beyond double precision) against std::fmod of the same type.',
     assumptions=COMMON_ASSUMPTIONS + ['inputs whose mathematically exact result (or the machine quotient a/b) is not representable are out of scope by the statement and skipped; log2(0) is documented as undefined and skipped'],
     exhaustive_spaces=['all values of every 8/16-bit source type for all 64 truncation_check pairs',
                        'all pairs of 8-bit operands for mod/div/diff/clamp',
